@@ -84,12 +84,16 @@ Definition bond_in (bs : list (Z * Z * Z)) (a b o : Z) : bool :=
 Definition order_z (d : attrs) : Z :=
   match aget (S "order") d with Some (VInt z) => z | Some (VFlt r) => if str_eqb r (S "2.0") then 2 else -1 | _ => -1 end.
 
-(** the harness' identification IS an isomorphism of the returned heavy-atom graph onto the written
-    molecule (elements, bonds, orders); the generator makes that isomorphism unique *)
+(** the harness' identification IS an isomorphism of the returned molecule's recognisable atoms onto the
+    written molecule (elements, bonds, orders); the generator makes that isomorphism unique.  Recognisable =
+    every non-hydrogen atom, plus an explicitly written hydrogen ([H]/C(F)=…) when it is the ONLY hydrogen of
+    its only neighbour (checked here), so that it cannot be confused with a completed hydrogen. *)
+Definition h_neighbours (g : graph) (k : Z) : list Z := filter (is_h g) (neighbors g k).
 Definition ident_ok (c : case) (g : graph) : bool :=
-  let heavy := filter (fun n => negb (is_h g (nk n))) g in
   let m := c_ident c in
-  Nat.eqb (length heavy) (length (c_atoms c))
+  let inm := fun k => existsb (Z.eqb k) (map fst m) in
+  let core := filter (fun n => negb (is_h g (nk n)) || inm (nk n)) g in
+  Nat.eqb (length core) (length (c_atoms c))
   && Nat.eqb (length m) (length (c_atoms c))
   && nodup_keysb (map snd m) && nodup_keysb (map fst m)
   && forallb (fun n => match zlookup (nk n) m with
@@ -98,8 +102,14 @@ Definition ident_ok (c : case) (g : graph) : bool :=
                                    | _, _ => false
                                    end
                        | None => false
-                       end) heavy
-  && (let hh := filter (fun e => negb (is_h g (fst (fst e))) && negb (is_h g (snd (fst e)))) (edges_data g) in
+                       end) core
+  && forallb (fun n => negb (is_h g (nk n))
+                       || match neighbors g (nk n) with
+                          | [a] => Nat.eqb (length (h_neighbours g a)) 1
+                          | _ => false
+                          end) core
+  && (let hh := filter (fun e => let u := fst (fst e) in let v := snd (fst e) in
+                                 (negb (is_h g u) || inm u) && (negb (is_h g v) || inm v)) (edges_data g) in
       Nat.eqb (length hh) (length (c_bonds c))
       && forallb (fun e => bond_in (c_bonds c) (ident_of m (fst (fst e))) (ident_of m (snd (fst e))) (order_z (snd e))) hh).
 
